@@ -1354,7 +1354,7 @@ func (ck *checker) flush() {
 	ck.buf = ck.buf[:0]
 }
 
-// the known-finding witness: weighted consistent hash, Remove with another weight than Add
+// regression witness (repaired in TarsGo f9f5b11): weighted consistent hash, Remove with another weight than Add
 func reweightedWitness() caseJ {
 	a := epJ{Host: "10.0.0.1", Port: 1, Proto: "tcp", W: 400, WT: 1}
 	b := epJ{Host: "10.0.0.2", Port: 1, Proto: "tcp", W: 4, WT: 1}
@@ -1430,9 +1430,8 @@ func main() {
 				if sel == "conhash" && (p == "big" || p == "hugemix") {
 					p = "ratio" // ring size grows with the weight; the ring itself is C14's subject
 				}
-				// endpoints handed to Add/Remove may carry another weight than the one registered for the
-				// host, except for the consistent hash (known finding, separate stream below)
-				cases = append(cases, genSeq(rng, sel, ew, p, maxOps, sel != "conhash" && i%3 == 0))
+				// endpoints handed to Add/Remove may carry another weight than the one registered for the host
+				cases = append(cases, genSeq(rng, sel, ew, p, maxOps, i%3 == 0))
 			}
 		}
 	}
@@ -1454,7 +1453,8 @@ func main() {
 		genExhaustive(ck.check, "rr", true, uPos, 5, "exhaustive-pos")
 		genExhaustive(ck.check, "rr", true, uBad, 5, "exhaustive-bad")
 	}
-	// 5. weighted consistent hash, Remove with another weight than Add (known finding stream)
+	// 5. weighted consistent hash, Remove with another weight than Add: before TarsGo f9f5b11 Remove
+	// recomputed the virtual-node count from its argument and left ring points of the removed host
 	cases = append(cases, reweightedWitness())
 	nrw := 20
 	if thorough {
